@@ -415,6 +415,9 @@ class Interpreter:
         )
         for tablename, nickname, obj in relevant_objs:
             self.row_history.save_row(tablename, nickname, obj._values)
+        # the re-saved rows belong to earlier iterations: their nickname
+        # ordinals are not "local" to the first iteration of this run
+        self.row_history.local_counters.update(self.row_history.nickname_counters)
 
     def execute(self):
         RowHistoryCV.set(self.row_history)
